@@ -169,7 +169,7 @@ pub fn run(tier: Tier) -> i32 {
     let seed = ctx.seed;
 
     // ---------------------------------------------------------------- scope 1: all chunk sequences
-    for (reduced, depth) in tier.pick(vec![(false, 3usize)], vec![(false, 4usize), (true, 5usize)]) {
+    for (reduced, depth) in tier.pick(vec![(false, 3usize), (true, 4usize)], vec![(false, 4usize), (true, 5usize)]) {
         let kinds = chunk_kinds(seed, reduced);
         let name = format!("chunk-sequences/{}kinds/depth<={}", kinds.len(), depth);
         if !ctx.may_start(&name) {
